@@ -25,6 +25,10 @@ func makeSys(c string, j Job) Sys {
 	n, u := j.p("n", 4), j.p("u", 3)
 	cmpN := j.s("cmp", "nat")
 	str := j.s("elem", "int") == "str"
+	strU := strUniverse
+	if j.s("strset", "") == "json" {
+		strU = jsonStrUniverse
+	}
 	hc := "min"
 	if cmpN == "rev" {
 		hc = "max"
@@ -32,7 +36,7 @@ func makeSys(c string, j Job) Sys {
 	switch c {
 	case "arraylist", "singlylinkedlist", "doublylinkedlist":
 		if str {
-			return &ListSys[string]{Kind: c, U: strUniverse(u), Absent: "zz", Poison: "POISON", N: n,
+			return &ListSys[string]{Kind: c, U: strU(u), Absent: "zz", Poison: "POISON", N: n,
 				Cmps: map[string]func(a, b string) int{"nat": strCmp("nat"), "rev": strCmp("rev"), "coarse": strCmp("coarse")}}
 		}
 		return intListSys(c, n, u)
@@ -43,17 +47,17 @@ func makeSys(c string, j Job) Sys {
 			return kvSysFromJob(jj)
 		}
 		if str {
-			return &SetSys[string]{Kind: c, CmpN: cmpN, U: strUniverse(u), Absent: "zz", Poison: "POISON", Cmp: strCmp(cmpN), Tuples: defaultSetTuples(u)}
+			return &SetSys[string]{Kind: c, CmpN: cmpN, U: strU(u), Absent: "zz", Poison: "POISON", Cmp: strCmp(cmpN), Tuples: defaultSetTuples(u)}
 		}
 		return intSetSys(c, cmpN, u)
 	case "arraystack", "linkedliststack", "arrayqueue", "linkedlistqueue", "circularbuffer":
 		if str {
-			return &SeqSys[string]{Kind: c, Cap: j.p("cap", 3), N: n, Poison: "POISON", U: strUniverse(u)}
+			return &SeqSys[string]{Kind: c, Cap: j.p("cap", 3), N: n, Poison: "POISON", U: strU(u)}
 		}
 		return &SeqSys[int]{Kind: c, Cap: j.p("cap", 3), N: n, Poison: -99, U: intRange(1, u)}
 	case "priorityqueue", "binaryheap":
 		if str {
-			return scalarHeapSys[string](c, hc, n, strUniverse(u), "POISON", j.p("jsonlen", 2))
+			return scalarHeapSys[string](c, hc, n, strU(u), "POISON", j.p("jsonlen", 2))
 		}
 		if j.s("elem", "") == "int" {
 			return scalarHeapSys[int](c, hc, n, intRange(1, u), -99, j.p("jsonlen", 2))
@@ -61,9 +65,9 @@ func makeSys(c string, j Job) Sys {
 		return heSys(c, hc, n, j.p("pmax", 2), j.p("jsonlen", 2))
 	case "hashmap", "treemap", "linkedhashmap", "hashbidimap", "treebidimap", "rbt", "avl", "btree":
 		if str {
-			ku := strUniverse(u)
+			ku := strU(u)
 			// values drawn from the key alphabet ("values that contain text equal to keys")
-			return &KVSys[string, string]{Kind: c, Order: j.p("m", 3), CmpN: cmpN, VCmpN: j.s("vcmp", "nat"), N: j.p("n", u), KU: ku, VU: strUniverse(j.p("vu", u)),
+			return &KVSys[string, string]{Kind: c, Order: j.p("m", 3), CmpN: cmpN, VCmpN: j.s("vcmp", "nat"), N: j.p("n", u), KU: ku, VU: strU(j.p("vu", u)),
 				KCmp: strCmp(cmpN), VCmp: strCmp(j.s("vcmp", "nat")), PropsL: kvProps,
 				Probes: func(live []string) []string { return []string{"", "zz"} }}
 		}
